@@ -23,6 +23,11 @@ TOPOS = {
     # mixed routing-only / full nodes
     "mixed": [O(x) for x in ("0", "1", "11", "21", "2", "12", "112")],
 }
+# every node of this topology was constructed with ANOTHER address (of another level) and re-assigned
+# afterwards - what a mesh renewal does, and what the documentation prescribes after changing
+# allow_multicast / address bytes
+TOPOS["readdr"] = [O(x) for x in ("0", "1", "3", "11", "31", "13", "113")]
+PRE_ADDR = {O("0"): O("12"), O("1"): O("234"), O("3"): O("5"), O("11"): O("2"), O("31"): O("1234"), O("13"): O("4"), O("113"): O("35")}
 ROUTING_ONLY = {"mixed": {O("1"), O("2"), O("12")}}
 LENGTHS_Q = (0, 1, 24, 25, 48, 49, 144)
 TYPES = (0, 1, 64, 65, 127)
@@ -36,6 +41,9 @@ def template(topo, cost, frag):
     if t is None:
         ro = ROUTING_ONLY.get(topo, ())
         specs = [{"addr": a, "cls": H.RF24NetworkRoutingOnly if a in ro else H.RF24Network} for a in TOPOS[topo]]
+        if topo == "readdr":
+            for sp in specs:
+                sp["pre_addr"] = PRE_ADDR[sp["addr"]]
         t = N.Net(specs, cost_class=cost)
         if not frag:
             for n in t.nodes.values():
@@ -73,6 +81,14 @@ def run_unicast(case, chooser=None):
             obs["ret"] = n.write(H.RF24NetworkFrame(hdr, buf))
         obs["dt"] = net.w.now - t0
         obs["hdr_type_after"] = hdr.message_type
+        if case.get("second"):
+            # a second message to the same destination, sent after the first one is through and
+            # BEFORE the destination's application has read anything
+            net.serve(ctx, src, 40 * MS, hook)
+            mlen2, mtype2 = case["second"]
+            msg2 = H.pattern(mlen2, case.get("seed", 0) + 1, salt=mlen2 + 5)
+            obs["msg2"] = msg2
+            obs["ret2"] = n.send(H.RF24NetworkHeader(dst, mtype2), msg2)
         bad = N.listening_violations(n, net.radios[src])
         if bad:
             obs["c07"].append((src, "write", tuple(bad)))
@@ -87,6 +103,7 @@ def run_unicast(case, chooser=None):
     obs["npkts"] = len(air)
     obs["ncoll"] = sum(1 for p in air if p.collided)
     obs["oversize"] = [r.name for r in net.radios.values() if any(a[0] == "payload_width" for a in r.anomalies)]
+    obs["flushed_unread"] = {k: r.rx_flushed_unread for k, r in net.radios.items() if r.rx_flushed_unread}
     # cause of an abandoned hop transmission: nobody listens on that address vs. contention
     listeners = set()
     for r in net.radios.values():
@@ -126,7 +143,22 @@ def judge(case, obs, pid=PID):
         role = "src" if key == src else ("dst" if key == dst else "router")
         v.append(("%s/exception:%s:%s" % (pid, e.split(":")[0], role), "node %o raised %s" % (key, e)))
     want = (src, dst, case["mtype"], msg)
-    got = obs["queues"][dst]
+    got = list(obs["queues"][dst])
+    if obs.get("flushed_unread"):
+        k0 = sorted(obs["flushed_unread"])[0]
+        v.append(("%s/received-frames-discarded:%s" % (pid, "router" if k0 not in (src, dst) else ("src" if k0 == src else "dst")),
+                  "node %o flushed %d received payload(s) out of its RX FIFO unread" % (k0, obs["flushed_unread"][k0])))
+    if "msg2" in obs:
+        want2 = (src, dst, case["second"][1], obs["msg2"])
+        if want2 in got and want in got and got.index(want2) < got.index(want):
+            v.append(("%s/second-message:order:%s" % (pid, shape), "the second message was queued before the first"))
+        if want2 not in got:
+            v.append(("%s/second-message:lost:%s" % (pid, shape), "the second message (%d bytes, type %d) is not in the destination's queue (first message %s)" % (
+                len(obs["msg2"]), case["second"][1], "present" if want in got else "missing too")))
+        elif obs.get("ret2") is not True:
+            v.append(("%s/second-message:return-%r:%s" % (pid, obs.get("ret2"), shape), "send() of the second message returned %r" % (obs.get("ret2"),)))
+        if want2 in got:
+            got.remove(want2)
     for key, q in obs["queues"].items():
         if key != dst and q:
             v.append(("%s/bystander:%s" % (pid, shape), "node %o queued %d frame(s) not addressed to it" % (key, len(q))))
@@ -230,6 +262,18 @@ def build_items(tier, seed):
                                       cost=k % 4, lat=(k // 4) % 4, api="send", seed=seed, id0=k & 0xFFFF))
             for i in range(0, len(cases), 12):
                 items.append((cases[i:i + 12], 0))
+    # two messages in a row to one destination whose application reads late (direct neighbours and
+    # single-frame routed, so that finding #17 does not interfere)
+    for topo, s_, d_ in (("chain", O("1"), O("0")), ("chain", O("0"), O("1")), ("bushy", O("11"), O("1")), ("mixed", O("11"), O("21"))):
+        cs = []
+        for (l1, t1), (l2, t2) in (((30, 1), (40, 1)), ((48, 65), (25, 65)), ((144, 7), (144, 7)), ((10, 1), (30, 1)), ((30, 1), (10, 1)), ((5, 1), (6, 1))):
+            if topo == "mixed" and max(l1, l2) > 24:
+                continue  # routed: single frames only
+            for (c, l) in ((0, 0), (2, 1), (1, 2)):
+                k += 1
+                cs.append(dict(topo=topo, src=s_, dst=d_, mlen=l1, mtype=t1, frag=True, cost=c, lat=l, api="send", seed=seed, id0=(k * 7919) & 0xFFFF,
+                               second=[l2, t2]))
+        items.append((cs, 0))
     # E-DFS over per-delivery latency deviations on selected routes
     dev = 1 if tier == "quick" else 2
     sel = [("chain", O("1111"), O("0")), ("chain", O("0"), O("4445")), ("chain", O("11"), O("45")), ("chain", O("1"), O("11")),
@@ -253,7 +297,7 @@ def run(tier, seed, rep, only=None):
     return dict(
         level="model_checking",
         exhaustive=True,
-        rule="every ordered (src,dst) pair of 3 topologies (chain to depth 4 with 8-hop routes, bushy, mixed routing-only/full) x message "
+        rule="every ordered (src,dst) pair of 4 topologies (chain to depth 4 with 8-hop routes, bushy, mixed routing-only/full, a tree of re-addressed nodes) x message "
              "lengths x fragmentation on/off x API x SPI-cost class x poll-latency class (per-run classes enumerated; per-delivery latency "
              "deviations explored exhaustively up to the stated deviation bound on 6 routes). One execution = all nodes running the real "
              "update()/send() code in a deterministic discrete-event world. Non-trivial = at least one packet on the air; distinct by (case, choice list). "
